@@ -118,6 +118,7 @@ static RMat tri(const RVec& d, const RVec& e)
 // Eigen's real makeGivens against the contract the step cases use
 static void givens_case()
 {
+    g_givens_contract = false;  // a worker process runs paths of several cases one after the other: reset what step_case() sets
     Real p = sym::fresh("p"), q = sym::fresh("q"), r;
     Eigen::JacobiRotation<Real> rot;
     rot.makeGivens(p, q, &r);
